@@ -13,6 +13,9 @@ L1 = [["aa1", "aa2"], [], ["ac1"]]
 L2 = [[], ["ab1"], ["ac1", "ac2"]]
 L3 = [["aa1"], ["ab1", "ab2"], []]
 L4 = [["aa1", "aa2", "aa3"], ["ab1"], ["ac1", "ac2"]]
+L6 = [["aa1", "aa2", "aa3"], ["ab1", "ab2"], []]
+PQ = ["aa", "bq", "b3"]                      # generation order of the real table: q comes before 3 in the base32 alphabet
+LQ = [["aa1"], ["bqx", "bqy"], ["b3a", "b3b"]]
 OBLIGATIONS = [
     chx("crawl_no_crash", "C27_h", "h_crawl_no_crash",
         bounds={"quick": {"J": 40}, "thorough": {"J": 60}},
@@ -28,6 +31,20 @@ OBLIGATIONS = [
         timeout={"quick": 120, "thorough": 1200},
         desc="as crawl_no_crash with one interruption, while one extra bucket in the middle prefix appears at / disappears from the k-th directory "
              "listing (symbolic k): the buckets that exist throughout are still processed exactly once per cycle, in order; the transient one at most once"),
+    chx("crawl_order", "C27_h", "h_crawl_order",
+        bounds={"quick": {"J": 40}, "thorough": {"J": 60}},
+        cases=[{"layout": L6, "_label": "L6"}, {"prefixes": PQ, "layout": LQ, "_label": "digit-prefix"}],
+        timeout={"quick": 120, "thorough": 1200},
+        desc="as crawl_no_crash with one interruption, with every directory listing (os.listdir or os.scandir) returned in an arbitrary order "
+             "(symbolic permutation of up to 3 names) and, in the digit-prefix case, a prefix table whose generation order (base32 alphabet: bq before b3) "
+             "differs from ASCII order: every bucket exactly once per cycle, prefixes and buckets in ascending order"),
+    chx("crawl_clean_restart", "C27_h", "h_crawl_clean_restart",
+        bounds={"quick": {"J": 40, "restart_max": 5, "two_jumps": False}, "thorough": {"J": 45, "restart_max": 7, "two_jumps": True}},
+        cases=[{"layout": L1, "_label": "L1"}, {"prefixes": PQ, "layout": LQ, "_label": "digit-prefix"}],
+        timeout={"quick": 120, "thorough": 1500},
+        desc="one (thorough: two) interruption(s) and a clean shutdown (real stopService) + restart from the state file after the r-th slice "
+             "(symbolic r), in particular after a slice that ended inside a prefix: nobody was killed mid-slice, so every bucket is processed "
+             "exactly once per cycle"),
     chx("crawl_crash", "C27_h", "h_crawl_crash",
         bounds={"quick": {"J": 40, "crash_max": 14}, "thorough": {"J": 60, "crash_max": 30}},
         cases={"quick": [{"layout": L1, "_label": "L1"}],
@@ -44,7 +61,7 @@ OBLIGATIONS = [
              "_HistorySerializer, _LeaseStateSerializer) on the same skeleton, one (quick) / two (thorough) interruptions, no kill: coverage exactly "
              "once per cycle, history gets one entry per finished cycle whose counters equal the number of buckets (cycle-to-date reset by started_cycle)"),
     chx("lease_cycle_restart", "C27_h", "h_lease_cycle_restart",
-        bounds={"quick": {"J": 24, "crash_max": 10}, "thorough": {"J": 50, "crash_max": 20}},
+        bounds={"quick": {"J": 24, "crash_max": 7}, "thorough": {"J": 50, "crash_max": 20}},
         cases={"quick": [{"layout": L1, "_label": "L1"}], "thorough": [{"layout": L1, "_label": "L1"}, {"layout": L3, "_label": "L3"}]},
         timeout={"quick": 120, "thorough": 1500},
         desc="same, with one interruption and a process kill after any event, restart through the real constructors and the JSON state file: "
